@@ -18,7 +18,9 @@ OPT_LISTS = [[], [OPT("Writer", 1), OPT("AddWriter", 3)], [OPT("ErrorWriter", 4)
              [OPT("AddWriter", 1), OPT("ResetWriters", 0), OPT("AddErrorWriter", 4)],
              [OPT("AddLevelWriter", 3, 4), OPT("RemoveLevelWriter", 3, 4), OPT("AddLevelWriter", 1, 4)],
              [OPT("AddLevelWriter", 3, 4), OPT("ResetLevelWriter", 0, 4)],
-             [OPT("AddLevelWriter", 3, 4), OPT("ResetLevelWriters", 0), OPT("AddWriter", 3)]]
+             [OPT("AddLevelWriter", 3, 4), OPT("ResetLevelWriters", 0), OPT("AddWriter", 3)],
+             # writers for two severities, then the reset of ONE of them as an option
+             [OPT("AddLevelWriter", 3, 4), OPT("AddLevelWriter", 1, 2), OPT("ResetLevelWriter", 0, 4)]]
 
 
 def base(quick):
@@ -49,7 +51,7 @@ def config(quick):
 def config_new(quick):
     """The same operations as New(...) options (and With*) creating children of a configured parent."""
     c = base(quick)
-    c.update(max_loggers=3, setter_args={"Writer": [(1, 0)], "ErrorWriter": [(4, 0)]}, acts=["New", "With"], wlevels=[4])
+    c.update(max_loggers=3, setter_args={"Writer": [(1, 0)], "ErrorWriter": [(4, 0)]}, acts=["New", "With"], wlevels=[4, 2])
     return c
 
 
